@@ -715,6 +715,99 @@ def rule_G11(ck):
     if n < 5:
         ck.unknown(f"only {n} uses of possibly-deferred results found (nine confirmed by hand)")
     _g11_addresses(ck)
+    _g11_tuple_results(ck)
+
+
+def rule_G11_results(ck):
+    _g11_tuple_results(ck)
+
+
+def _deferred_positions(fn):
+    """positions of the returned tuple that may hold an unevaluated deferred (Deferred[..](..) / SizedDeferred[..](..) built in place)"""
+    out = set()
+    for r in walk_local(fn):
+        if isinstance(r, ast.Return) and isinstance(r.value, ast.Tuple):
+            for i, e in enumerate(r.value.elts):
+                if any(isinstance(c, ast.Call) and isinstance(c.func, ast.Subscript) and norm_text(c.func.value) in ("Deferred", "SizedDeferred") for c in ast.walk(e)):
+                    out.add(i)
+    return out
+
+
+# positions whose deferreds are byte chunks (a SizedDeferred supports len() and +): not numbers, not judged here
+def _g11_tuple_results(ck):
+    """Methods that return tuples with a possibly-deferred NUMBER in some position (the operand encoders: the bits that go into the
+    opcode word): the caller's name bound to that position - directly, or through a list of tuples it was appended to and a loop
+    that unpacks that list again, nested functions included - may be combined with + - *, stored, passed on, or forced with wait()."""
+    repo = ck.repo
+    methods = {}
+    for q, fn in repo.all_functions():
+        if isinstance(fn, ast.FunctionDef) and "." in q.split("::")[1]:
+            pos = {i for i in _deferred_positions(fn)
+                   if any(isinstance(r, ast.Return) and isinstance(r.value, ast.Tuple) and len(r.value.elts) > i and "SizedDeferred" not in norm_text(r.value.elts[i]) and "Deferred" in norm_text(r.value.elts[i])
+                          for r in walk_local(fn))}
+            if pos:
+                methods.setdefault(fn.name, set()).update(pos)
+    ck.instance("tuple-sources", {"methods with a possibly-deferred number in a result position": {k: sorted(v) for k, v in sorted(methods.items())}})
+    n = 0
+    for q, fn in repo.all_functions():
+        if isinstance(fn, ast.Lambda) or "<locals>" in q or q.split("::")[0] in ("deferred", "devices", "_cli", "parser", "reports"):
+            continue
+        if any(q.split("::")[1].startswith(o.split("::")[1] + ".") for o, f2 in repo.all_functions() if o.split("::")[0] == q.split("::")[0] and isinstance(f2, ast.FunctionDef) and f2 is not fn and any(x is fn for x in ast.walk(f2))):
+            continue                     # nested functions are walked with their outermost function
+        names, lists = {}, {}
+        grew = True
+        while grew:
+            grew = False
+            for a in ast.walk(fn):
+                if isinstance(a, ast.Assign) and len(a.targets) == 1 and isinstance(a.targets[0], ast.Tuple) and isinstance(a.value, ast.Call) and isinstance(a.value.func, ast.Attribute) \
+                        and a.value.func.attr in methods:
+                    for i in methods[a.value.func.attr]:
+                        if i < len(a.targets[0].elts) and isinstance(a.targets[0].elts[i], ast.Name) and a.targets[0].elts[i].id not in names:
+                            names[a.targets[0].elts[i].id] = f"position {i} of .{a.value.func.attr}()"
+                            grew = True
+                # v2 = v
+                if isinstance(a, ast.Assign) and len(a.targets) == 1 and isinstance(a.targets[0], ast.Name) and isinstance(a.value, ast.Name) and a.value.id in names and a.targets[0].id not in names:
+                    names[a.targets[0].id] = names[a.value.id]
+                    grew = True
+                # L.append((x, v))
+                if isinstance(a, ast.Call) and isinstance(a.func, ast.Attribute) and a.func.attr == "append" and isinstance(a.func.value, ast.Name) and len(a.args) == 1 and isinstance(a.args[0], ast.Tuple):
+                    for i, e in enumerate(a.args[0].elts):
+                        if isinstance(e, ast.Name) and e.id in names and (a.func.value.id, i) not in lists:
+                            lists[(a.func.value.id, i)] = names[e.id]
+                            grew = True
+                # for x, v in L:
+                if isinstance(a, (ast.For, ast.comprehension)) and isinstance(a.iter, ast.Name) and isinstance(a.target, ast.Tuple):
+                    for i, e in enumerate(a.target.elts):
+                        if isinstance(e, ast.Name) and (a.iter.id, i) in lists and e.id not in names:
+                            names[e.id] = lists[(a.iter.id, i)]
+                            grew = True
+        if not names:
+            continue
+        for node in ast.walk(fn):
+            if not (isinstance(node, ast.Name) and isinstance(node.ctx, ast.Load) and node.id in names):
+                continue
+            n += 1
+            ck.instance(("tuple-result-use", q, node.id, node.lineno, node.col_offset), None, fn=q)
+            p = node._parent
+            bad = None
+            if isinstance(p, ast.BinOp) and not isinstance(p.op, ALLOWED_BINOPS):
+                bad = norm_text(p)
+            elif isinstance(p, ast.Compare) and not all(isinstance(o, (ast.Is, ast.IsNot)) for o in p.ops):
+                bad = norm_text(p)
+            elif isinstance(p, ast.UnaryOp) and isinstance(p.op, (ast.Not, ast.Invert)):
+                bad = norm_text(p)
+            elif isinstance(p, (ast.If, ast.While, ast.IfExp)) and p.test is node:
+                bad = "truth test of " + node.id
+            elif isinstance(p, ast.Call) and isinstance(p.func, ast.Name) and p.func.id in ("range", "int", "oct", "hex", "bin", "abs", "divmod", "chr", "bytes", "str"):
+                bad = norm_text(p)
+            elif isinstance(p, ast.Subscript) and p.slice is node:
+                bad = norm_text(p)
+            if bad:
+                ck.violation(node, f"'{node.id}' is {names[node.id]}, which may be an unevaluated deferred (a branch offset or an immediate that depends on a later label); "
+                                   f"'{bad[:60]}' is not an operation a deferred supports (TypeError at the closing evaluation) - it has to be forced with wait() first: 'br later' dies, 'br earlier' assembles",
+                             construct=f"deferred result used without wait in {public_qual(q).split('::')[1]}")
+    if n < 2:
+        ck.unknown(f"only {n} uses of possibly-deferred tuple results found (compile_insn: two confirmed by hand)")
 
 
 ADDRESS_PARAMS = {"addr", "old_addr", "start", "address"}
